@@ -605,6 +605,10 @@ def check(pid, tier):
         if hard:
             return 2
     if cov["distinct_nontrivial"] < 2:
+        if any("wall budget" in p for p in problems):
+            # workers stopped at the wall budget before they flushed their statistics: inconclusive, neither a violation nor a broken generator
+            sys.stderr.write("[machinery] inconclusive: the wall budget ended the run before any statistics were written\n")
+            return 0
         sys.stderr.write("[machinery] generator health: fewer than 2 distinct non-trivial cases\n")
         return 2
     # label health: required labels must be reached
